@@ -50,7 +50,7 @@ func runs() []*run {
 		cfg   dqueue.Config
 		quick bool
 	}{{dqueue.Config{NumConsumers: 1, BufferSize: 1}, true}, {dqueue.Config{NumConsumers: 2, BufferSize: 1}, true}, {dqueue.Config{NumConsumers: 2, BufferSize: 2}, true},
-		{dqueue.Config{NumConsumers: 3, BufferSize: 2}, true}, {dqueue.Config{NumConsumers: 3, BufferSize: 3}, false}, {dqueue.Config{NumConsumers: 4, BufferSize: 2}, false},
+		{dqueue.Config{NumConsumers: 3, BufferSize: 2}, true}, {dqueue.Config{NumConsumers: 3, BufferSize: 3}, true}, {dqueue.Config{NumConsumers: 4, BufferSize: 2}, false},
 		{dqueue.Config{NumConsumers: 4, BufferSize: 4}, false}, {dqueue.Config{NumConsumers: 5, BufferSize: 1}, false}} {
 		cfg := c.cfg
 		out = append(out, &run{Name: fmt.Sprintf("dqueue-C%d-B%d", cfg.NumConsumers, cfg.BufferSize), System: "dqueue", Quick: c.quick, Cfg: cfg,
@@ -73,7 +73,7 @@ func runs() []*run {
 		quick bool
 	}{{proxy.Config{NumServers: 1, NumClients: 1, ExploreFail: true, ClientRun: true, PerfectFD: true}, true},
 		{proxy.Config{NumServers: 2, NumClients: 1, ExploreFail: true, ClientRun: true, PerfectFD: true}, true},
-		{proxy.Config{NumServers: 2, NumClients: 1, ExploreFail: true, ClientRun: true, PerfectFD: true, Requests: true, MaxInput: 2}, false},
+		{proxy.Config{NumServers: 2, NumClients: 1, ExploreFail: true, ClientRun: true, PerfectFD: true, Requests: true, MaxInput: 2}, true},
 		{proxy.Config{NumServers: 2, NumClients: 2, ExploreFail: true, ClientRun: true, PerfectFD: true}, false},
 		{proxy.Config{NumServers: 3, NumClients: 1, ExploreFail: true, ClientRun: true, PerfectFD: true}, false}} {
 		cfg := c.cfg
@@ -87,7 +87,7 @@ func runs() []*run {
 	}
 	for n := 1; n <= 7; n++ {
 		cfg := shcounter.Config{NumNodes: n}
-		out = append(out, &run{Name: fmt.Sprintf("shcounter-N%d", n), System: "shcounter", Quick: n <= 5, Cfg: cfg,
+		out = append(out, &run{Name: fmt.Sprintf("shcounter-N%d", n), System: "shcounter", Quick: n <= 6, Cfg: cfg,
 			New: func() *ss.System { return shcounter.New(cfg) }, Invs: []stateInv{cfg.EndsAtNumNodes},
 			Terminal: func(s *ss.State) (string, string) {
 				if !cfg.AllDone(s) {
@@ -106,7 +106,7 @@ func runs() []*run {
 		cfg   shopcart.Config
 		quick bool
 	}{{shopcart.Config{NumNodes: 2, BenchNumRounds: 1}, true}, {shopcart.Config{NumNodes: 2, BenchNumRounds: 2}, true}, {shopcart.Config{NumNodes: 3, BenchNumRounds: 1}, true},
-		{shopcart.Config{NumNodes: 2, BenchNumRounds: 3}, false}, {shopcart.Config{NumNodes: 3, BenchNumRounds: 2}, false}} {
+		{shopcart.Config{NumNodes: 2, BenchNumRounds: 3}, false}, {shopcart.Config{NumNodes: 3, BenchNumRounds: 2}, true}} {
 		cfg := c.cfg
 		out = append(out, &run{Name: fmt.Sprintf("shopcart-N%d-R%d", cfg.NumNodes, cfg.BenchNumRounds), System: "shopcart", Quick: c.quick, Cfg: cfg,
 			New: func() *ss.System { return shopcart.New(cfg) }, Invs: []stateInv{cfg.QueryOK, cfg.StrongConvergence}})
@@ -115,7 +115,7 @@ func runs() []*run {
 		cfg   nestedcrdtimpl.Config
 		quick bool
 	}{{nestedcrdtimpl.Config{NumNodes: 1, NumOps: 3, BufferSize: 1}, true}, {nestedcrdtimpl.Config{NumNodes: 2, NumOps: 1, BufferSize: 1}, true},
-		{nestedcrdtimpl.Config{NumNodes: 2, NumOps: 2, BufferSize: 1}, false}, {nestedcrdtimpl.Config{NumNodes: 2, NumOps: 2, BufferSize: 2}, false}} {
+		{nestedcrdtimpl.Config{NumNodes: 2, NumOps: 2, BufferSize: 1}, true}, {nestedcrdtimpl.Config{NumNodes: 2, NumOps: 2, BufferSize: 2}, false}} {
 		cfg := c.cfg
 		out = append(out, &run{Name: fmt.Sprintf("nestedcrdtimpl-N%d-O%d-B%d", cfg.NumNodes, cfg.NumOps, cfg.BufferSize), System: "nestedcrdtimpl", Quick: c.quick, Cfg: cfg,
 			New: func() *ss.System { return nestedcrdtimpl.New(cfg) }, Invs: []stateInv{cfg.ViewBoundedByWrites}, EdgeInvs: []edgeInv{cfg.MonotonicState}})
@@ -205,7 +205,7 @@ func TestCheck(t *testing.T) {
 				notRun = append(notRun, r.Name+" (thorough tier only)")
 			}
 		}
-		confCap := 1500
+		confCap := 500
 		if env.Thorough() {
 			confCap = 30000
 		}
@@ -217,10 +217,12 @@ func TestCheck(t *testing.T) {
 		var samples []any
 		for i, r := range sel {
 			sys := r.system()
+			// time: a search may use up to a third of what is left (at least 5 s); the live replay of
+			// its leaf paths gets an equal share of the rest
 			left := time.Until(env.Deadline)
-			share := left / time.Duration(len(sel)-i)
-			if share < 2*time.Second {
-				share = 2 * time.Second
+			share := left / 3
+			if share < 5*time.Second {
+				share = 5 * time.Second
 			}
 			opt := ss.BFSOptions{Workers: env.Workers, Deadline: time.Now().Add(share), Constraint: r.Constraint,
 				Invariants: r.Invs, EdgeInvs: r.EdgeInvs, FailedIsViolation: true, MaxViol: 6, KeepGraph: r.Terminal != nil}
@@ -263,6 +265,11 @@ func TestCheck(t *testing.T) {
 			}
 			// conformance: BFS-tree leaf paths on long-lived contexts (real first label, real PreAmble)
 			nConf := 0
+			confStart := time.Now()
+			confShare := time.Until(env.Deadline) / time.Duration(len(sel)-i+1)
+			if confShare < 3*time.Second {
+				confShare = 3 * time.Second
+			}
 			leaves := append([]int32{}, b.Leaves...)
 			sort.Slice(leaves, func(i, j int) bool { return leaves[i] < leaves[j] })
 			step := 1
@@ -276,7 +283,7 @@ func TestCheck(t *testing.T) {
 					break
 				}
 				nConf++
-				if time.Now().After(env.Deadline) {
+				if time.Since(confStart) > confShare {
 					break
 				}
 			}
@@ -295,7 +302,7 @@ func TestCheck(t *testing.T) {
 			}
 			perRun = append(perRun, map[string]any{"run": r.Name, "system": r.System, "config": r.Cfg, "states": b.States, "transitions": b.Transitions, "depth": b.Depth,
 				"disabled_attempts": b.Disabled, "error_edges": b.ErrorEdges, "states_outside_constraint": b.NotExpanded, "terminal_states_checked": terminals,
-				"tree_leaves": len(b.Leaves), "leaf_paths_replayed_live": nConf, "all_leaf_paths_replayed": nConf == len(b.Leaves), "exhaustive": b.Exhaustive, "cap": b.Cap, "wall_s": b.WallS,
+				"tree_leaves": len(b.Leaves), "leaf_paths_replayed_live": nConf, "all_leaf_paths_replayed": nConf == len(b.Leaves), "exhaustive": b.Exhaustive, "cap": b.Cap, "wall_s": b.WallS, "conformance_wall_s": time.Since(confStart).Seconds(),
 				"memo_hits": b.MemoHits, "memo_misses_executed_on_real_code": b.MemoMisses, "memo_hits_rechecked_on_real_code": b.MemoChecks, "violations_not_reproduced": b.Unconfirmed})
 			if len(b.Leaves) > 0 && (i == 0 || sel[i-1].System != r.System) {
 				samples = append(samples, map[string]any{"run": r.Name, "trace": sys.Render(b.PathTo(b.Leaves[len(b.Leaves)/2]))})
